@@ -372,9 +372,19 @@ let () = register "history" (fun args ->
                    let names' = Refname.apply_tx names tx in
                    Refname.conflict_free_b names' && seq names' rest in
                let legal = seq names0 txs in
+               (* the Addition taken as ONE transaction (a later table's record for a name wins) *)
+               let whole =
+                 let tx_all = L.concat (L.map (L.map (fun x -> (x.Records.r_name, Records.ref_is_del x))) txs) in
+                 let rec dedup seen = function
+                   | [] -> []
+                   | (n, d) :: t -> if L.mem n seen then dedup seen t else (n, d) :: dedup (n :: seen) t in
+                 let last_wins = L.rev (dedup [] (L.rev tx_all)) in
+                 let sorted = L.sort (fun (a, _) (b, _) -> if Bytes.bytes_ltb a b then -1 else if Bytes.bytes_ltb b a then 1 else 0) last_wins in
+                 Refname.validate_addition names0 sorted in
                if status = "rejected" then
                  (if not name_check then Printf.sprintf "bad:rejected without name check at op %d" i
                   else if legal then Printf.sprintf "bad:legal Addition refused at op %d" i
+                  else if whole then "bad:c12-addition-order"
                   else if show_refs r <> show_refs prev_refs || show_logs l <> show_logs prev_logs then Printf.sprintf "bad:rejected Addition had an effect at op %d" i
                   else "ok")
                else if status = "ok" then
@@ -574,6 +584,25 @@ let () = register "hostile" (fun args ->
     if L.mem "panic" impl then "bad:panic" else if L.mem "hang" impl then "bad:hang"
     else if L.exists (fun p -> S.length p > 5 && S.sub p 0 5 = "alloc") impl then "bad:alloc" else "ok" in
   (S.concat "|" parts, oracle))
+
+(* ---- C09, last clause: the update index after a compaction emptied the stack ---- *)
+let () = register "idxrestart" (fun args ->
+  let cfg = parse_cfg "0,0,0,0,0,0" in
+  let name = bytes_of_hex "726566732f68656164732f61" in
+  let zero20 = L.init 20 (fun _ -> N0) in
+  let st0 = [] in
+  let r1 = { Records.r_name = name; r_index = StackSeq.next_index st0; r_val = Records.RVal zero20 } in
+  let (st1, _) = StackSeq.stack_add deflate inflate cfg true false [r1] [] st0 in
+  let r2 = { Records.r_name = name; r_index = StackSeq.next_index st1; r_val = Records.RDel } in
+  let (st2, _) = StackSeq.stack_add deflate inflate cfg true false [r2] [] st1 in
+  let committed = string_of_n (StackSeq.next_index st2) in
+  let (st3, _) = StackSeq.stack_compact_all deflate inflate cfg None st2 in
+  let model = Printf.sprintf "committed<=%d next=%s tables=%d" (int_of_string committed - 1) (string_of_n (StackSeq.next_index st3)) (L.length st3) in
+  let oracle =
+    if L.length args < 2 then "-" else
+    (try Scanf.sscanf (L.nth args 1) "committed<=%d next=%d tables=%d" (fun c n _ -> if n > c then "ok" else "bad:c09-index-restart")
+     with _ -> "bad:format") in
+  (model, oracle))
 
 (* ---- stack protocol traces: C04 C05 C06 C08 C09 C10 C16 ---- *)
 open StackTrace
